@@ -9,16 +9,19 @@ From the statement ("comparisons select the same outcomes as CPython"): for two 
 The helper compares (sign, digit count) and then the 30-bit digits from the most significant one down, with a loop for
 3 or more digits.  Proved here (loop invariant, termination): the answer is the lexicographic comparison of
 (sign, digit count, digits from the top).  The step from there to the comparison of the VALUES is positional notation:
-    LEX (assumed, listed): for two ints with the same sign and the same number of base-2**30 digits, the magnitudes
+    LEX: for two ints with the same sign and the same number of base-2**30 digits, the magnitudes
     compare like the digits at the most significant position where they differ; they are equal iff no digit differs;
     with the same sign, fewer digits means a smaller magnitude.
 LEX is a fact of arithmetic about the representation contract of dv/pyobj.py, not about the code; it is stated through an
-uninterpreted `topdiff(a, b)` (the highest differing digit position, or -1) so that the solver needs no induction.
+uninterpreted `topdiff(a, b)` (the highest differing digit position, or -1) so that the subject units need no induction,
+and it is PROVED as a lemma (end of this file) from the definition value == sum(digit[i] * 2**(30 i)): three inductions over
+the digit count, bases and steps discharged by z3, the induction schema applied by hand.
 """
 import z3
 
 from dv.spec import And, Or, Not, Implies, If
 from dv.cunit import CUnit
+from dv.lemma import LemmaUnit
 from dv.l3 import compiled
 from dv import pyobj as O
 from dv import cextract
@@ -456,7 +459,9 @@ def units(tier):
         u = CUnit("Optimize.CompareIntInt[%s]" % suffix, props, fname, _tu, filt=[fname, "__Pyx_PyLong_CompareSignAndSize"],
                   pyobjs=("op1", "op2"),
                   requires=[("both operands are exact int objects (checked by the dispatching caller)", lambda e: And(O.is_long(e.op1), O.is_long(e.op2))),
-                            ("ASSUMED positional-notation lemma LEX for this pair of ints", lambda e: lex(e.op1, e.op2))],
+                            ("positional-notation lemma LEX for this pair of ints (LemmaUnit Optimize.CompareIntInt.LEX: bases, steps and the "
+                             "derivation are discharged; the induction schema is applied by hand; ASSUMED: value == sum of digit[i] * 2**(30 i))",
+                             lambda e: lex(e.op1, e.op2))],
                   ensures=[("the answer is value(op1) %s value(op2), no exception" % op, _post(op))],
                   options={"inline": ("*",), "merge": False, "invariants": {0: _DigitLoop()}},
                   subject={"file": "Cython/Utility/Optimize.c", "template": "PyObjectCompare", "instantiation": "CompareIntInt" + suffix})
@@ -465,7 +470,70 @@ def units(tier):
         u.replay = _native
         u.concrete_search = lambda ob, regions=(): _native({}, ob)
         us.append(u)
+    us.append(LemmaUnit("Optimize.CompareIntInt.LEX", {"C19": None, "C02": None}, _lex_lemmas,
+                        subject={"file": "Cython/Utility/Optimize.c", "function": "(positional-notation lemma LEX required by the CompareIntInt contracts)"}))
     return us
+
+
+# ------------------------------------------------------------------------------------------------------------
+# LEX as a lemma.  The value of a PyLong is DEFINED (longintrepr.h) as  sum(digit[i] * 2**(30*i), i < ndigits).
+# With  W(0) = 1, W(n+1) = 2**30 * W(n)  and  PV(o, 0) = 0, PV(o, n+1) = PV(o, n) + digit(o, n) * W(n)  this is
+# mag(o) == PV(o, ndigits(o)).  LEX follows by three inductions over the digit count whose base cases and steps are
+# discharged here; the induction SCHEMA (base & step => for all n) is applied by hand: the derivation lemma takes the
+# universally quantified conclusions as hypotheses.
+
+W = z3.Function("pylong_weight", O.I, O.I)
+PV = z3.Function("pylong_prefix_value", O.I, O.I, O.I)
+TD = z3.Function("topdiff_below", O.I, O.I, O.I, O.I)      # highest differing digit position below n, or -1
+B30 = 1 << 30
+
+
+def _lex_lemmas():
+    a, b, n, m, j = z3.Ints("a b n m j")
+
+    def digits(o):
+        return z3.ForAll([j], And(O.digit(o, j) >= 0, O.digit(o, j) < B30))
+
+    def pvdef(o, n):
+        return PV(o, n + 1) == PV(o, n) + O.digit(o, n) * W(n)
+
+    def char(n):
+        """TD(a, b, n) is what its name says (a definition: such a position exists and is unique)"""
+        k = TD(a, b, n)
+        return And(k >= -1, k < n, z3.ForAll([j], Implies(And(j > k, j < n), O.digit(a, j) == O.digit(b, j))),
+                   Implies(k >= 0, O.digit(a, k) != O.digit(b, k)))
+
+    def bounded(o, n):      # A(n)
+        return And(PV(o, n) >= 0, PV(o, n) < W(n))
+
+    def ordered(n):         # B(n)
+        k = TD(a, b, n)
+        return And(Implies(k == -1, PV(a, n) == PV(b, n)),
+                   Implies(k >= 0, And(PV(a, n) != PV(b, n), (PV(a, n) < PV(b, n)) == (O.digit(a, k) < O.digit(b, k)))))
+
+    def mono(n):            # D(n)
+        return z3.ForAll([m], Implies(And(m >= 0, m <= n), W(m) <= W(n)))
+
+    wstep = W(n + 1) == B30 * W(n)
+    yield "W.base(W(0) >= 1)", [W(0) == 1], W(0) >= 1
+    yield "W.step(W(n) >= 1 => W(n+1) >= 1)", [n >= 0, wstep, W(n) >= 1], W(n + 1) >= 1
+    yield "mono.base", [W(0) == 1], mono(z3.IntVal(0))
+    yield "mono.step", [n >= 0, wstep, W(n) >= 1, mono(n)], mono(n + 1)
+    yield "bounded.base(0 <= PV(o,0) < W(0))", [PV(a, 0) == 0, W(0) == 1], bounded(a, z3.IntVal(0))
+    yield "bounded.step", [n >= 0, digits(a), pvdef(a, n), wstep, W(n) >= 1, bounded(a, n)], bounded(a, n + 1)
+    yield "ordered.base", [char(z3.IntVal(0)), PV(a, 0) == 0, PV(b, 0) == 0], ordered(z3.IntVal(0))
+    yield ("ordered.step", [n >= 0, digits(a), digits(b), pvdef(a, n), pvdef(b, n), W(n) >= 1, bounded(a, n), bounded(b, n),
+                            char(n), char(n + 1), ordered(n)], ordered(n + 1))
+    # derivation: the conclusions of the inductions (for all n >= 0) + the definition of the value => lex(a, b) as the contracts use it
+    # (the quantified conclusions "for all n >= 0: ..." are handed over as their instances at the four digit counts involved)
+    def at(n):
+        return Implies(n >= 0, And(W(n) >= 1, mono(n), bounded(a, n), bounded(b, n), pvdef(a, n), pvdef(b, n), char(n), ordered(n)))
+
+    value = lambda o: And(nd(o) >= 0, mag(o) == PV(o, nd(o)), Implies(nd(o) >= 1, O.digit(o, nd(o) - 1) != 0), digits(o))   # noqa: E731
+    hyps = [at(nd(a)), at(nd(b)), at(nd(a) - 1), at(nd(b) - 1), value(a), value(b), topdiff(a, b) == TD(a, b, nd(a))]
+    goal = lex(a, b)
+    for k, part in enumerate(goal.children() if z3.is_and(goal) else [goal]):
+        yield "LEX.%d(from the inductions and value == sum of weighted digits)" % k, hyps, part
 
 
 REGIONS = {}
